@@ -39,27 +39,27 @@ PLANS = {
         quick=dict(mc=[M(2, 1, 1, 1, 2, "block", 16, ["Inv_C15"], cont=False), M(1, 0, 1, 0, 2, "all", 12, ["Inv_C15"])],
                    drv=["--scenarios", 200, "--directed", 2]),
         thorough=dict(mc=[M(2, 1, 1, 1, 2, "all", 18, ["Inv_C15"], cont=False), M(2, 0, 1, 1, 3, "block", 16, ["Inv_C15"])],
-                      drv=["--scenarios", 2500, "--directed", 1])),
+                      drv=["--scenarios", 2500, "--directed", 1], mech=300)),
     "C16": dict(
         quick=dict(mc=[M(1, 1, 1, 0, 3, "block", 14, ["Inv_C16"]), M(2, 0, 1, 0, 2, "block", 14, ["Inv_C16"])],
                    drv=["--scenarios", 200, "--directed", 2]),
         thorough=dict(mc=[M(1, 1, 2, 0, 3, "block", 14, ["Inv_C16"]), M(2, 1, 1, 1, 3, "block", 16, ["Inv_C16"])],
-                      drv=["--scenarios", 2500, "--directed", 1])),
+                      drv=["--scenarios", 2500, "--directed", 1], mech=300)),
     "C17": dict(
         quick=dict(mc=[M(1, 0, 1, 0, 3, "action", 14, ["Inv_C17"]), M(1, 1, 1, 1, 2, "action", 14, ["Inv_C17"])],
                    drv=["--scenarios", 200, "--directed", 2]),
         thorough=dict(mc=[M(1, 0, 2, 0, 3, "action", 14, ["Inv_C17"]), M(2, 1, 1, 1, 3, "action", 16, ["Inv_C17"])],
-                      drv=["--scenarios", 2500, "--directed", 1])),
+                      drv=["--scenarios", 2500, "--directed", 1], mech=300)),
     "C18": dict(
         quick=dict(mc=[M(1, 0, 1, 0, 4, "timer", 16, ["Inv_C18"]), M(1, 1, 1, 1, 3, "timer", 14, ["Inv_C18"])],
                    drv=["--scenarios", 200, "--directed", 2]),
         thorough=dict(mc=[M(1, 0, 2, 0, 4, "timer", 16, ["Inv_C18"]), M(2, 1, 1, 1, 4, "timer", 18, ["Inv_C18"])],
-                      drv=["--scenarios", 2500, "--directed", 1])),
+                      drv=["--scenarios", 2500, "--directed", 1], mech=300)),
     "C19": dict(
         quick=dict(mc=[M(1, 1, 1, 1, 2, "all", 12, ["Inv_C19"]), M(2, 1, 1, 0, 2, "block", 12, ["Inv_C19"])],
-                   drv=["--scenarios", 200, "--directed", 2]),
+                   drv=["--scenarios", 200, "--directed", 2], mech=30),
         thorough=dict(mc=[M(2, 1, 1, 1, 2, "all", 18, ["Inv_C19", "Inv_C15", "Inv_C16", "Inv_C17", "Inv_C18"])],
-                      drv=["--scenarios", 2500, "--directed", 1])),
+                      drv=["--scenarios", 2500, "--directed", 1], mech=300)),
 }
 
 NONTRIVIAL = {
@@ -109,6 +109,24 @@ def check_sim(prop, tier, seed):
     log("[%s] sim_driver seed=%d: %s; %d lines folded through SimObs in %.1fs; %d scenarios, %d non-trivial" % (
         prop, seed, {k: s[k] for k in ("written", "events", "actions", "panics", "sub_microsecond_skipped")},
         tv["lines"], tv["wall"], total, nt))
+    # mechanism conformance (diagnostic, DESIGN.md section 9 rule 1): real runs that SimMech models
+    # completely must be explained step by step by the mechanism
+    mech = None
+    if p.get("mech"):
+        mtrace = os.path.join(wd, "mech.ndjson")
+        pr2 = vlib.run_bin("sim_driver", ["--seed", seed + 1000, "--scenarios", p["mech"], "--out",
+                                          os.path.join(wd, "mech_unused.ndjson"), "--mech-out", mtrace], timeout=3000)
+        if pr2.returncode != 0:
+            raise ToolError("sim_driver failed: %s" % pr2.stdout[-2000:])
+        ms = json.loads(pr2.stdout.strip().splitlines()[-1])
+        mtv = vlib.trace_validate("SimMechTrace", vlib.tlc_cfg("TSpec", {"Variant": "{}"}), mtrace, wd, "tvmech",
+                                  shards=12, timeout=2400)
+        if mtv["incomplete"]:
+            raise ToolError("mechanism trace validation did not finish: %s" % mtv["incomplete"])
+        mech = dict(scenarios=ms["mechanism_traces"], lines=mtv["lines"], explained=mtv["explained"],
+                    divergences=len(mtv["diverged"]), first_divergence=(mtv["diverged"] or [None])[0])
+        log("[%s] MECH: %d real runs without pps limit / aggregate delay, %d lines, %d explained step by step by SimMech, %d divergences (diagnostic)" % (
+            prop, mech["scenarios"], mech["lines"], mech["explained"], mech["divergences"]))
     known = [k for k in vlib.load_known() if k.get("property") == prop and k.get("status") == "known"]
     known_sigs = {k["signature"] for k in known}
     seen_known = set()
@@ -135,7 +153,8 @@ def check_sim(prop, tier, seed):
     coverage = dict(states=states, transitions=trans, traces_validated_against_impl=total,
                     evaluations=max(total, 1), distinct_nontrivial=nt,
                     rule="scenario = random time-sorted trace x delay x 0-4 random/templated machines per side x fractions x stop settings, run 6-8 times (hooks, re-run, three filters, bounded, sim()); non-trivial = exercises the property's events",
-                    samples=sample or ["(none)"], exhaustive=False, model_checking_runs=mc_runs, driver_summary=s)
+                    samples=sample or ["(none)"], exhaustive=False, model_checking_runs=mc_runs, driver_summary=s,
+                    mechanism_conformance=mech)
     vlib.write_evidence(prop, tier, seed, "model_checking", coverage, time.time() - t0, len(viols), ASSUME)
     if viols:
         v = sorted(viols, key=lambda x: (x["id"], x["l"]))[0]
